@@ -25,7 +25,7 @@ pub fn generate(seed: u64, n: usize, out: &Path) -> Result<usize, String> {
         // half of the worlds give the lexicon to the front ends as two files whose names sort in the opposite order
         // (word ids are line numbers over the files *as listed*)
         let rows: Vec<&str> = spec.system_csv.split_inclusive('\n').collect();
-        let lex_files: Vec<String> = if rows.len() >= 2 && rng.chance(1, 2) && !spec.system_csv.contains('"') {
+        let lex_files: Vec<String> = if rows.len() >= 2 && rng.chance(1, 2) {
             let k = 1 + rng.below(rows.len() - 1);
             std::fs::write(dir.join("part_b.csv"), rows[..k].concat()).map_err(|e| e.to_string())?;
             std::fs::write(dir.join("part_a.csv"), rows[k..].concat()).map_err(|e| e.to_string())?;
